@@ -195,7 +195,9 @@ type c15RateCase struct {
 	Probes  int    `json:"probes"`
 	Chunked bool   `json:"more_than_200_port_ranges"`
 	VPN     bool   `json:"vpn"`
-	StopMs  int    `json:"sigint_after_ms"` // slow rates: the scan is interrupted; whatever was written by then is judged
+	StopMs  int    `json:"sigint_after_ms"`                      // slow rates: the scan is interrupted; whatever was written by then is judged
+	StallAt int    `json:"wire_stalls_inside_write,omitempty"`   // the wire blocks inside this write (1-based) ...
+	StallN  int    `json:"stall_lasts_rate_intervals,omitempty"` // ... for this many rate intervals: afterwards at most the fixed burst may leave at once
 	Seed    int64  `json:"rand_seed"`
 }
 
@@ -273,11 +275,22 @@ func c15RateCheck(c c15RateCase) *kit.Verdict {
 	}
 	args = append(args, target)
 	var world *vwire.World
-	if c.StopMs > 0 {
-		v.Label("sub-hertz-rate")
+	if c.StopMs > 0 || c.StallAt > 0 {
+		if c.StopMs > 0 {
+			v.Label("sub-hertz-rate")
+		}
+		if c.StallAt > 0 {
+			v.Label("wire-stall")
+		}
 		var once sync.Once
+		var nw int64
 		world = vwire.NewWorld(vwire.Scenario{OnWrite: func(w *vwire.World, s *vwire.Socket, wr *vwire.Write) error {
-			once.Do(func() { w.After(time.Duration(c.StopMs)*time.Millisecond, sendSIGINT) })
+			if c.StopMs > 0 {
+				once.Do(func() { w.After(time.Duration(c.StopMs)*time.Millisecond, sendSIGINT) })
+			}
+			if c.StallAt > 0 && int(atomic.AddInt64(&nw, 1)) == c.StallAt {
+				time.Sleep(time.Duration(c.StallN) * per)
+			}
 			return nil
 		}})
 	}
@@ -330,7 +343,7 @@ func c15GenRate(t *rapid.T, minPer, maxPer time.Duration) (count int, window str
 func TestC15Rate(t *testing.T) {
 	kit.Run(t, kit.Spec[c15RateCase]{
 		Prop: "C15",
-		Rule: "full packet-scan commands (arp, icmp, udp, tcp variants; Ethernet and raw-IP; <=200 and >200 port ranges, i.e. one limiter per chunk) with --rate N or N/W, W in {s,1s,2s,1.5s,1m,0.5s,100ms,20ms,10ms,3ms,500us}, N drawn so that W/N is 0.15..25 ms, 17..600 probes (about 1 s of sending); also rates below one probe per second (1/2s, 3/5s, 20/m ...) with the scan interrupted after 1.2 s. Observed: monotonic time of every WritePacketData on the virtual wire. Oracle (lower bound only): for all i<j on one socket t_j - t_i >= (j-i-12)*W/N - 200us. non-trivial: some pair has a positive bound; distinct by case",
+		Rule: "full packet-scan commands (arp, icmp, udp, tcp variants; Ethernet and raw-IP; <=200 and >200 port ranges, i.e. one limiter per chunk) with --rate N or N/W, W in {s,1s,2s,1.5s,1m,0.5s,100ms,20ms,10ms,3ms,500us}, N drawn so that W/N is 0.15..25 ms, 17..600 probes (about 1 s of sending); also rates below one probe per second (1/2s, 3/5s, 20/m ...) with the scan interrupted after 1.2 s; in a third of the longer scans the wire blocks inside one early write for 25..60 rate intervals. Observed: monotonic time of every WritePacketData on the virtual wire. Oracle (lower bound only): for all i<j on one socket t_j - t_i >= (j-i-12)*W/N - 200us. non-trivial: some pair has a positive bound; distinct by case",
 		Gen: func(t *rapid.T) c15RateCase {
 			c := c15RateCase{Cmd: rapid.SampledFrom(c01PacketCmds).Draw(t, "cmd"), Seed: rapid.Int64().Draw(t, "seed")}
 			var per time.Duration
@@ -355,6 +368,11 @@ func TestC15Rate(t *testing.T) {
 				r := rapid.SampledFrom([][2]string{{"1", "2s"}, {"3", "5s"}, {"20", "m"}, {"1", "1500ms"}, {"2", "3s"}}).Draw(t, "slowrate")
 				fmt.Sscan(r[0], &c.Count)
 				c.Window, c.Probes, c.Chunked, c.StopMs = r[1], 32, false, 1200
+			} else if c.Probes > 80 && rapid.IntRange(0, 2).Draw(t, "stall") == 0 {
+				// the wire (a full tx queue) blocks one write for 25..60 rate intervals: when it comes back, at most
+				// the limiter's fixed burst may leave back to back, not everything that "should" have left meanwhile
+				c.StallAt = rapid.IntRange(2, 20).Draw(t, "stall-at")
+				c.StallN = rapid.IntRange(25, 60).Draw(t, "stall-n")
 			}
 			return c
 		},
